@@ -84,8 +84,9 @@ theorem backfill_CopyInv (w : World) (lf : Nat) (r : Int) (h : CopyInv w.items) 
 /-- the invariant holds in every reachable state -/
 theorem step_CopyInv (w : World) (op : Op) (h : CopyInv w.items) : CopyInv (step w op).items := by
   cases op with
-  | item lf kind sn name oref out =>
+  | item lf kind sn0 name oref out =>
     simp only [step]
+    generalize normName sn0 = sn
     split
     · exact h
     · unfold addItem
@@ -95,8 +96,9 @@ theorem step_CopyInv (w : World) (op : Op) (h : CopyInv w.items) : CopyInv (step
         simp [copyNumber, itemsOfKey, Item.key]
       · exact h
       · exact h
-  | origin lf sn name oref out =>
+  | origin lf sn0 name oref out =>
     simp only [step, addOrigin]
+    generalize normName sn0 = sn
     split
     · exact h
     · rename_i r _
@@ -276,9 +278,10 @@ theorem RegInv_backfill (w : World) (lf : Nat) (r : Int) (h : RegInv w) : RegInv
 
 theorem step_RegInv (w : World) (op : Op) (hlf : op.lf < w.keys.length) (h : RegInv w) : RegInv (step w op) := by
   cases op with
-  | item lf kind sn name oref out =>
+  | item lf kind sn0 name oref out =>
     simp only [Op.lf] at hlf
     simp only [step]
+    generalize normName sn0 = sn
     split
     · exact h
     · unfold addItem
@@ -290,9 +293,10 @@ theorem step_RegInv (w : World) (op : Op) (hlf : op.lf < w.keys.length) (h : Reg
         simp [mem_insertKey]
       · exact ht
       · exact ht
-  | origin lf sn name oref out =>
+  | origin lf sn0 name oref out =>
     simp only [Op.lf] at hlf
     simp only [step, addOrigin]
+    generalize normName sn0 = sn
     have ht := RegInv_touch w lf (0, sn) hlf h
     split
     · exact ht
